@@ -18,7 +18,7 @@ DESIGN_REF = "DESIGN.md section 6, C03"
 
 def correspondence(ctx):
     pipeline.numeric_campaign(ctx, ["C03"], (), 60, 800, max_modes_quick=4, max_modes_thorough=5,
-                              trunc=False,
+                              trunc=False, scales=(1.0, 1.0, 1.0, 2.0 ** -30, 2.0 ** -40, 2.0 ** 20),
                               nontrivial=lambda meta, s: meta["modes"] >= 2)
 
 
